@@ -64,7 +64,7 @@ int vx_thrown;
 #define PH_DFA 8
 struct source_point { size32_t line; size32_t column; };
 struct match_options { bool verbose; };
-struct recognized_term { size16_t term_idx; size_t len; };
+struct recognized_term { size16_t term_idx; vx_rt_len_t len; };   /* member type from the real declaration (R16) */
 struct utils__slice { size32_t start; size32_t n; };
 struct dfa_size_analyzer { size32_t size; };
 static inline struct source_point source_point__default(void) { struct source_point p = { 1, 1 }; return p; }
@@ -81,7 +81,7 @@ const char* g_buf; size_t g_len; size_t g_k;
 struct dfa expr_sm;     /* R3: regex::expr<Pattern>::sm of the one instance under consideration */
 size16_t g_ret_term; size_t g_ret_len;   /* ghost: the result dfa_match returned */
 #define VX_OFF(p) ((size_t)__CPROVER_POINTER_OFFSET(p))
-#define VX_MAXBUF 4096
+#define VX_MAXBUF 70000
 static inline const char* vx_rd(const char* p) { __CPROVER_assert(__CPROVER_same_object(p, g_buf) && VX_OFF(p) < g_len, "VX_BUFFER read inside the caller's buffer"); return p; }
 ''' + open(os.path.join(HERE, '..', 'contracts', 'dfa.pre.h')).read()
 
@@ -90,6 +90,7 @@ UNIT.facts = [r'struct source_point\s*\{\s*size32_t line = 1;\s*size32_t column 
               r'size8_t start_state = 0;\s*size8_t end_state = 0;\s*size8_t unreachable = 0;\s*conflicted_terms conflicted_recognition = \{ uninitialized16, uninitialized16, uninitialized16, uninitialized16 \};\s*size16_t transitions\[transitions_size\] = \{\};\s*stdex::cbitset<N> merged_from = \{\};',
               r'constexpr const T& operator\[\]\(size_type idx\) const \{ return the_data\[idx\]; \}',
               r'using dfa = stdex::cvector<dfa_state<N>, N>;', PC.FACTS[-1], PC.FACTS[5]]
+UNIT.typedefs = PC.RT_TYPEDEFS
 apply_spec(UNIT.fns, os.path.join(HERE, '..', 'contracts', 'dfa.spec'))
 
 
